@@ -119,6 +119,8 @@ def run(chk, ctx):
             if rec.kind == "Move" and multi:
                 x = rec.arg(0, "n")
                 seeds = [s for s in st.symbols() | set(st.enums) if s.startswith("seed(")]
+                if not wrote_after_ef and run_.numcase:
+                    continue    # boundary cell without reachable reversal-time writes: the Move is not reachable either
                 if not wrote_after_ef:
                     chk.decide("C09.REPEAT", yc, False,
                                "Move inside a repeatable adjoint pass, but no checkpoint is written after EndForward: "
